@@ -103,9 +103,9 @@
 #define PHB_INV_CL \
   /* the duplicate detector is in step with the field map: haveCL <=> a Content-Length value is stored, and clValue IS that value */ \
   __CPROVER_loop_invariant(haveCL == (MAPCL.has_cl != 0)) \
-  __CPROVER_loop_invariant(haveCL ==> ((clValue.n == MAPCL.cl.second.n) & (HB.cl_off <= hs.n) & (clValue.n <= hs.n - HB.cl_off) & ((clValue.n == 0) | (clValue.p == hs.p + HB.cl_off)))) \
+  __CPROVER_loop_invariant(haveCL ==> ((clValue.n == MAPCL.cl.second.n) & (HB.cl_off <= hs.n) & (clValue.n <= hs.n) & (HB.cl_off + clValue.n <= hs.n) & ((clValue.n == 0) | ((clValue.p == hs.p + HB.cl_off) & (MAPCL.cl.second.p == hs.p + HB.cl_off))))) \
   /* every Content-Length line before pos (arbitrary GS) was seen and its value equals clValue */ \
-  __CPROVER_loop_invariant(((GS < pos) & LINESTART(hs, GS) & CLLINE(hs, GS)) ==> ((HB.seen != 0) & haveCL & (HB.s_va <= hs.n) & (HB.s_vn <= hs.n - HB.s_va) & SVEQ_AT(hs, HB.s_va, HB.s_vn, HB.cl_off, clValue.n)))
+  __CPROVER_loop_invariant(((GS < pos) & LINESTART(hs, GS) & CLLINE(hs, GS)) ==> ((HB.seen != 0) & haveCL & (HB.s_va <= hs.n) & (HB.s_vn <= hs.n) & (HB.s_va + HB.s_vn <= hs.n) & SVEQ_AT(hs, HB.s_va, HB.s_vn, HB.cl_off, clValue.n)))
 #else
 #define PHB_INV_CL
 #endif
@@ -113,6 +113,6 @@
   __CPROVER_assigns(pos, haveCL, clValue, iora_exc, HT, HB, (*resp).headers) \
   __CPROVER_loop_invariant(iora_exc == EXC_NONE) \
   __CPROVER_loop_invariant((pos >= 2) & (pos <= hs.n)) \
-  __CPROVER_loop_invariant(HM_CONTENT((pos == hs.n) | LINESTART(hs, pos))) \
+  __CPROVER_loop_invariant(HM_LOOP_CONTENT((pos == hs.n) | LINESTART(hs, pos))) \
   PHB_INV_OBS PHB_INV_CL \
   __CPROVER_decreases(hs.n - pos))
